@@ -115,11 +115,11 @@ CHECKS = {
     note="Bounds: capacity 2-3, 3-5 messages, ids 1..3; operations inside the documented usage protocol only. The redis clauses rest on the RESP fake (itself checked against RespCmds.tla). One open known finding (redis Init(clean) counters)."),
  "C16": dict(
     level="model_checking", ref="DESIGN.md §4 C16, App. B.5",
-    technique="TLC exhaustive FedStream.tla / FedEmit.tla + transition-coverage replay on the real eventQueue / sessionMgr / initStream / eventStreamHandler through the verif export, with driver-controlled fake bidi streams",
+    technique="TLC exhaustive FedStream.tla / FedEmit.tla + transition-coverage replay on the real eventQueue / sessionMgr / initStream / eventStreamHandler through the verif export, with driver-controlled fake bidi streams; trace validation (FedDelivery.tla) of two real Federation objects connected by real gRPC through a byte-cutting proxy",
     text="FedStream.tla models one ordered pair of nodes at the grain of the code (Emit, Hello resume/clean + resync, Fetch, SrvRecv, SrvAck, CliAck, Break losing any suffix of both channels at any time incl. during the handshake and between send and "
          "acknowledgement, restarts, node fail/rejoin); TLC checks AppliedIsPrefix / NoGapNoDup / QuiescentView on all schedules in the bound and every transition is replayed on the REAL federation objects with the network played by the driver; "
          "applied events, the peer's view vs the node's reference-counted local set and queue contents are compared after each step.",
-    note="Cuts at message grain (the byte-level gRPC proxy variant was not built). One open known finding (clean Hello whose answer is lost; its repair is pinned by TestFederation_Hello). Batch and duplicate-filter constants (100) are never exhausted by the bounded histories."),
+    note="FedStream replay: cuts at message grain, network played by the driver. Byte grain: a second tier puts real gRPC and A's real connect / back-off loop between two real Federation objects; a proxy cuts the TCP connection after 0..500 bytes in either direction; TLC validates the emit / apply / quiet traces against FedDelivery.tla (no peer restarts in that tier). One open known finding (clean Hello whose answer is lost; its repair is pinned by TestFederation_Hello). Batch and duplicate-filter constants (100) are never exhausted by the bounded histories."),
  "C17": dict(
     level="model_checking", ref="DESIGN.md §4 C17",
     technique="TLC exhaustive FedRoute.tla + transition-coverage replay of the real sendMessage / OnMsgArrivedWrapper / OnWillPublishWrapper / receive path with recording peer queues and retained stores",
